@@ -74,7 +74,13 @@ def check_copies(c, f, mode):
     g = f.cfg
     al_src = None
     term = [n for n in g.nodes if n.kind == 'stmt' and stmt_assigns_attr(n.ast, 'terminated') is not None]
+    if not term:
+        # the status fields are copied here but the object is never marked terminated: `terminated` stays False for a child that is gone
+        anyc = [n for n in g.nodes if n.kind == 'stmt' and any(stmt_assigns_attr(n.ast, fld) is not None for fld in FIELDS)]
+        c.bad(f, anyc[0].ast if anyc else f.node, '%s observes the end of the child but never sets self.terminated = True' % f.name, kind='ast', tag='terminated-set')
+        return
     c.need(len(term) == 1 and is_const(term[0].ast.value, True), '%s: self.terminated = True not found exactly once' % f.qual)
+    c.ok(f, term[0].ast, 'the object is marked terminated where the end of the child is observed', kind='ast', tag='terminated-set')
     tn = term[0]
     for fld in FIELDS:
         asg = [n for n in g.nodes if n.kind == 'stmt' and stmt_assigns_attr(n.ast, fld) is not None
@@ -204,6 +210,7 @@ def check_popen_wait(c, f):
 
 
 MUTANTS = [
+    ('wait-no-terminated', 'pty_spawn', "        self.exitstatus = ptyproc.exitstatus\n        self.signalstatus = ptyproc.signalstatus\n        self.terminated = True\n\n        return exitstatus", "        self.exitstatus = ptyproc.exitstatus\n        self.signalstatus = ptyproc.signalstatus\n\n        return exitstatus", 'D1'),
     ('isalive-cross', 'pty_spawn', "            self.status = ptyproc.status\n            self.exitstatus = ptyproc.exitstatus\n            self.signalstatus = ptyproc.signalstatus\n            self.terminated = True\n\n        return alive", "            self.status = ptyproc.status\n            self.exitstatus = ptyproc.signalstatus\n            self.signalstatus = ptyproc.exitstatus\n            self.terminated = True\n\n        return alive", 'D1'),
     ('wait-drop-signal', 'pty_spawn', "        self.status = ptyproc.status\n        self.exitstatus = ptyproc.exitstatus\n        self.signalstatus = ptyproc.signalstatus\n        self.terminated = True\n\n        return exitstatus", "        self.status = ptyproc.status\n        self.exitstatus = ptyproc.exitstatus\n        self.terminated = True\n\n        return exitstatus", 'D1'),
     ('wait-fast-path', 'pty_spawn', "        ptyproc = self.ptyproc\n        with _wrap_ptyprocess_err():\n            # exception may occur", "        if self.terminated:\n            return self.status\n        ptyproc = self.ptyproc\n        with _wrap_ptyprocess_err():\n            # exception may occur", 'D2'),
